@@ -25,6 +25,8 @@ func checkC01(c *Check) {
 	c.peerConfigVerbatim("C01.7 one-manager-per-peer")
 	c.checkOwnership("C01.7 fsm-table-owned-by-manager")
 	c.rendezvousChannels("C01.1 approval-rendezvous", "transitionCh")
+	c.peerManagerContracts("C01.3 manager-effects")
+	c.serverContracts("C01.8 shutdown-protocol")
 	c.peerStopDisablesBoth("C01.8 stop-delivers-onclose")
 	c.serveShutdown("C01.8 stop-delivers-onclose")
 }
